@@ -222,6 +222,25 @@ impl JsError {
         }
     }
 
+    /// Give a syntax error that has no position yet (line 0) the position of `span`;
+    /// every other error is returned unchanged.
+    pub fn located_at(self, span: crate::lexer::Span) -> Self {
+        match self {
+            JsError::SyntaxError { message, location } if location.line == 0 => {
+                JsError::SyntaxError {
+                    message,
+                    location: SourceLocation {
+                        file: location.file,
+                        line: span.line,
+                        column: span.column,
+                        length: span.end.saturating_sub(span.start).max(1) as u32,
+                    },
+                }
+            }
+            other => other,
+        }
+    }
+
     /// Create a syntax error without location info (for internal use during parsing)
     pub fn syntax_error_simple(message: impl Into<String>) -> Self {
         JsError::SyntaxError {
